@@ -37,6 +37,13 @@ def run(run):
         one_entry(run, f)
         check_then_insert(run, f, det)
         direction(run, f, det)
+        # completeness also needs every in-flight ask to KEEP its edge until it ends: the guard removes exactly the inserted
+        # key, lives in the ask future across both awaits, and its destructor removes that key only (C15 rules O15.1-O15.3);
+        # an edge retired early (wrong key, guard dropped at once) makes a later cycle through it invisible
+        from rules import c15
+        c15.edge_iff_guard(run, f, det)
+        c15.guard_lives_across_awaits(run, f, det)
+        c15.destructor(run, f, det)
 
 
 def hooks_in_scope(run, f):
